@@ -39,6 +39,7 @@ var common *pflag.FlagSet
 
 func init() {
 	common = pflag.NewFlagSet("common", pflag.ExitOnError)
+	common.SortFlags = false // see Signer.Flags
 	common.Bool("no-timestamp", false, "Do not attach a trusted timestamp even if the selected key configures one")
 }
 
